@@ -133,7 +133,34 @@ def translation(ctx, fi: FuncInfo, n: Node, exc: str) -> Tuple[Optional[HandlerI
             body = [b for b in body if b.id in reached]
         except AnalysisError:
             pass
-    return h, [b for b in body if b.kind == "raise"], [b for b in body if b.kind == "return"]
+    raises = [b for b in body if b.kind == "raise"]
+    # `raise helper(exc)` where the helper (unknown to the reference tree, hence spliced in) builds the exception:
+    # what is raised for *exc* is what the name holds on the paths that are feasible for *exc*
+    live = {b.id for b in body}
+    for r in raises:
+        e = r.ast.exc
+        if isinstance(e, ast.Name):
+            from ..dataflow import DefUse as _DU2, origins as _orig2
+            du2 = _DU2(cfg)
+            tg = []
+            for o in _orig2(du2, r, e):
+                if o.node is not None and o.node.id not in live:
+                    continue
+                if o.kind == "expr" and isinstance(o.leaf, ast.Call):
+                    tg.append(((dotted(o.leaf.func) or "").split(".")[-1], list(o.leaf.args)))
+                else:
+                    tg.append((None, []))
+            r.extra.setdefault("targets", {})[exc] = tg
+    return h, raises, [b for b in body if b.kind == "return"]
+
+
+def raise_targets(n: Node, exc: Optional[str] = None) -> List[Tuple[Optional[str], List[ast.AST]]]:
+    """[(exception class name, constructor arguments)] a raise node can raise (for the translated exception *exc*
+    when the node was returned by translation())."""
+    t = n.extra.get("targets", {}).get(exc) if exc is not None else None
+    if t is not None:
+        return t
+    return [raise_ctor_args(n)]
 
 
 def raise_ctor_args(n: Node) -> Tuple[Optional[str], List[ast.AST]]:
@@ -647,3 +674,24 @@ def folder(ctx, fi: FuncInfo):
             return out
         return None
     return fold
+
+
+def as_tuple(ctx, fi, node, e: ast.AST) -> Optional[List[ast.AST]]:
+    """Component expressions of *e* if it is a tuple display or the construction of a record (NamedTuple / dataclass)
+    of the program - `ItemChange(name, ct, old, new)` is the tuple `(name, ct, old, new)` to every rule."""
+    if isinstance(e, ast.Tuple) and not any(isinstance(x, ast.Starred) for x in e.elts):
+        return list(e.elts)
+    if isinstance(e, ast.Call) and not any(isinstance(a, ast.Starred) for a in e.args):
+        fields = ctx._record_fields(fi, node, e)
+        if fields:
+            by = {k.arg: k.value for k in e.keywords if k.arg}
+            out = []
+            for i, f_ in enumerate(fields):
+                if i < len(e.args):
+                    out.append(e.args[i])
+                elif f_ in by:
+                    out.append(by[f_])
+                else:
+                    return None
+            return out
+    return None
